@@ -66,6 +66,8 @@ pub enum DefVal {
     Bool(bool),
     Null,
     CurrentTimestamp,
+    /// a byte-string default (blob-affinity columns)
+    Bytes(Vec<u8>),
 }
 
 #[derive(Clone, Debug, PartialEq)]
@@ -306,6 +308,7 @@ impl Col {
                         DefVal::Bool(b) => c.default(*b),
                         DefVal::Null => c.default(Keyword::Null),
                         DefVal::CurrentTimestamp => c.default(Keyword::CurrentTimestamp),
+                        DefVal::Bytes(b) => c.default(Value::Bytes(Some(Box::new(b.clone())))),
                     };
                 }
                 CS::Unique => {
@@ -544,7 +547,14 @@ pub fn random_default(rng: &mut Rng, ty: &Ty) -> DefVal {
         Some(Aff::Integer) => DefVal::Int(rng.range(-5, 90)),
         Some(Aff::Real) => DefVal::Real(*rng.pick(&[0.5, 1.25, -2.5])),
         Some(Aff::Numeric) => DefVal::Bool(rng.coin()),
-        Some(Aff::Blob) => DefVal::Null,
+        Some(Aff::Blob) => {
+            if rng.coin() {
+                DefVal::Null
+            } else {
+                // bytes on both sides of 0x10, a quote and a zero among them
+                DefVal::Bytes(vec![rng.below(16) as u8, 0, 39, 0xAB, rng.below(256) as u8][..1 + rng.below(5)].to_vec())
+            }
+        }
         _ => match rng.below(5) {
             0 => DefVal::Null,
             1 => DefVal::CurrentTimestamp,
